@@ -55,10 +55,12 @@ impl Matcher for SingleExecMatcher {
     fn matches(&self, file_info: &WalkEntry, _: &mut MatcherIO) -> bool {
         let mut command = Command::new(&self.executable);
         let path_to_file = if self.exec_in_parent_dir {
-            if let Some(f) = file_info.path().file_name() {
-                Path::new(".").join(f)
-            } else {
-                Path::new(".").join(file_info.path())
+            // The last component as spelled: also ".." or "." when the path ends in one
+            // (Path::file_name() is None for those), so that the argument names the
+            // entry from its parent directory.
+            match file_info.path().components().next_back() {
+                Some(last) => Path::new(".").join(last.as_os_str()),
+                None => Path::new(".").join(file_info.path()),
             }
         } else {
             file_info.path().to_path_buf()
@@ -146,10 +148,12 @@ impl MultiExecMatcher {
 impl Matcher for MultiExecMatcher {
     fn matches(&self, file_info: &WalkEntry, matcher_io: &mut MatcherIO) -> bool {
         let path_to_file = if self.exec_in_parent_dir {
-            if let Some(f) = file_info.path().file_name() {
-                Path::new(".").join(f)
-            } else {
-                Path::new(".").join(file_info.path())
+            // The last component as spelled: also ".." or "." when the path ends in one
+            // (Path::file_name() is None for those), so that the argument names the
+            // entry from its parent directory.
+            match file_info.path().components().next_back() {
+                Some(last) => Path::new(".").join(last.as_os_str()),
+                None => Path::new(".").join(file_info.path()),
             }
         } else {
             file_info.path().to_path_buf()
